@@ -4,6 +4,8 @@ mod frag;
 #[cfg(not(feature = "inprocess"))]
 mod sched;
 #[cfg(not(feature = "inprocess"))]
+mod zeroshm;
+#[cfg(not(feature = "inprocess"))]
 mod setsched;
 mod values;
 mod chan;
@@ -37,6 +39,8 @@ fn main() {
         "sched" => sched::run(),
         #[cfg(not(feature = "inprocess"))]
         "setsched" => setsched::run(),
+        #[cfg(not(feature = "inprocess"))]
+        "zeroshm" => zeroshm::run(),
         #[cfg(not(feature = "inprocess"))]
         "sched-child" => sched::child_main(&args[2..]),
         "values" => values::run(),
